@@ -6,8 +6,8 @@
 #include <sys/mman.h>
 #include "fuzz_common.h"
 #include "stralloc.h"
-#include "control.h"
 #include "constmap.h"
+#include "control.c"                    /* the tree's control.c, included to reach its static line buffer */
 
 static int mfd = -1; static char path[64];
 static long lines_total, lookups, hits;
@@ -30,6 +30,7 @@ int LLVMFuzzerTestOneInput(const uint8_t *data, size_t size)
   static stralloc sa = { 0 }, sb = { 0 }, sc = { 0 };
   struct constmap cm; int r, iv = -7; unsigned sel = size ? data[size - 1] : 0; unsigned int i, start;
   if (size) size--;
+  FZ_FRESH(sa); FZ_FRESH(sb); FZ_FRESH(sc); FZ_FRESH(line);
   if (ftruncate(mfd, 0) == -1 || pwrite(mfd, data, size, 0) != (ssize_t) size) { perror("memfd write"); exit(3); }
   r = control_readline(&sa, path);
   if (r == 1) fz_write(-1, sa.s, sa.len);
